@@ -178,7 +178,15 @@ def build(spec, user):
     try:
         b = M.construct(spec)
     except Exception as e:
-        raise SutError(f"construct|{type(e).__name__}|transform|{e}") from e
+        tag = "transform"
+        ctx = e.__context__ or e.__cause__
+        hows = {it["transform"]["how"] for it in spec if it.get("transform")}
+        if ("Cannot build local model" in str(e) and ctx is not None and "Duplicate node names" in str(ctx)
+                and "auto" in hows and any(h.startswith("gb_") for h in hows)):
+            # the listed C14 finding surfacing one call earlier: the local model that the deprecated
+            # gb.transform builds already fails (names n0, n1, ... were given by an earlier gb.transform)
+            tag = "duplicate-names:auto_transform+deprecated-gb-transform@gb.transform-call"
+        raise SutError(f"construct|{type(e).__name__}|{tag}|{e} [{type(ctx).__name__}: {ctx}]" if ctx is not None else f"construct|{type(e).__name__}|{tag}|{e}") from e
     gb = b.gb
     try:
         for i, it in enumerate(spec):
